@@ -237,6 +237,14 @@ def parser_part(R, rng, quick):
                                      ('load_hashmap', lambda: {u(k, w): lib_slice_value(v) for k, v in cell.begin_parse().load_hashmap(w).items()}),
                                      ('load_dict', lambda: {u(k, w): lib_slice_value(v) for k, v in
                                                             Builder().store_dict(cell).end_cell().begin_parse().load_dict(w).items()})]
+                            if len(tree.bits) + 3 <= 1023 and len(tree.refs) <= 3 and len(want_leaves) + len(pruned) > 1:
+                                # the root written inline (Hashmap n X) behind another field whose reference was consumed before
+                                def inline_root():
+                                    s_ = Builder().store_ref(Builder().store_uint(9, 4).end_cell()).store_uint(5, 3).store_cell(cell).end_cell().begin_parse()
+                                    s_.load_ref()
+                                    s_.skip_bits(3)
+                                    return {u(k, w): lib_slice_value(v) for k, v in s_.load_hashmap(w).items()}
+                                calls.append(('load_hashmap-inline-after-consumed-ref', inline_root))
                             for cname, f in calls:
                                 st, got = mon.call(f)
                                 R.count('parser_calls_' + cname)
